@@ -743,8 +743,9 @@ _C40_PROBES += [
 ]
 STRUCTURAL_PROBES["k_cli"] = _C40_PROBES
 _C07_DOCS = ["a { b: c }", "", "a { b: c }\n\n\n", "@import 'x.css';", "@foo bar;", "@x #{\"\\a\"};", "@x y#{\"\\a\"};", "a { b: c } @x #{\"\\a \\a\"};",
-             "a { b: \"\u00e4\" }", "/* \u00e4 */ a { b: c }", "a { b: c; }\n/* d */\n", "a { --x: {\n} }", "@media print { a { b: c } }\n"]
-STRUCTURAL_PROBES["k_output_frame"] = [(("rel", "framed", d, st) + (("nonascii",) if "\u00e4" in d and "/*" not in d else ()), None) for d in _C07_DOCS for st in ("expanded", "compressed")]
+             "a { b: \"\u00e4\" }", "/* \u00e4 */ a { b: c }", "@foo \"bl\u00e5b\u00e4r\";", "@media (foo: \"\u00e9\") { a { b: c } }", "@foo b\\e5 r;",
+             "@import url(foo.css) scr\u00e9en;", ".\u00e4 { b: c }", "a { --x: \u00e4 }", "a { b: c; }\n/* d */\n", "a { --x: {\n} }", "@media print { a { b: c } }\n"]
+STRUCTURAL_PROBES["k_output_frame"] = [(("rel", "framed", d, st) + (("nonascii",) if any(ord(ch) > 127 for ch in d) and "/*" not in d else ()), None) for d in _C07_DOCS for st in ("expanded", "compressed")]
 STRUCTURAL_PROBES["k_do_find_file"] = STRUCTURAL_PROBES["k_find_file"] + [((_FLAKY, "[fail-lookup %d]a.scss" % k), "<error>") for k in range(6)] + [
     ((_FLAKY, "[fail-lookup 99]a.scss"), "a { b: 1; c: 2; }")]
 STRUCTURAL_PROBES["k_fsloader_find"] = STRUCTURAL_PROBES["k_find_file"]
